@@ -90,6 +90,55 @@ SUMMARY2 = {
  "C20-D": ("RealVector validity checker memoises the last query: key stored before the Python call, verdict only after success", "a state on which the callback failed queried again immediately: stale True"),
 }
 
+# third round (fresh sub-agents, told the ideas of rounds 1 and 2); stored as <ID>-E / <ID>-F
+SUMMARY3 = {
+ "C01-E": ("RRT::check_motion loop rewritten as `t += 1/n; while t <= 1.0`: for ~40% of the step counts the float sum overshoots 1 and the end state is never validated", "motions of >= 9 checking steps (step > 0.8 L) ending just inside an obstacle"),
+ "C01-F": ("RRT-Connect goal-root re-draw stores the candidate before testing it: after 100 rejected draws the last rejected sample stays the goal root", "goal region entirely (marginally) invalid: path ends in a rejected state instead of NoSolutionFound"),
+ "C02-E": ("RRT::solve tests the goal outside the `if check_motion` block: a steered state in the goal whose motion was rejected ends the search", "goal region overlapping or adjacent to an obstacle: path returned whose last state is not in the goal"),
+ "C02-F": ("RRTConnect::reconstruct_path no longer reverses; the junction exit was adapted, the 'start tree reached the goal directly' exit was not", "solve ending through the direct exit: path returned goal-first, start-last"),
+ "C03-E": ("RRT-Connect caches ceil(max_distance / (0.1 L)) in setup() as a cap on motion-check steps", "public max_distance raised after setup() by more than 10x: edges checked with the stale count, gaps > L"),
+ "C03-F": ("RRT* check_motion takes the edge length from the caller; choose-parent passes the stale extension length", "sample very close to the tree, cheaper neighbour ~10x farther beyond an obstacle"),
+ "C04-E": ("SO3 sample_uniform fast path for cones < 0.5 rad uses ball radius sin(max_angle) instead of sin(max_angle/2) and skips the cone test", "bounded SO3 cone under 0.5 rad"),
+ "C04-F": ("PRM::setup no longer clears the roadmap and construct_roadmap returns early on a non-empty one", "setup(pd1), construct, setup(pd2 with tighter bounds), construct, solve on one PRM object"),
+ "C05-E": ("PRM::solve connects every valid start state to the roadmap while the path still begins at start_states.first()", "two or more start states, a later one fewer hops from the goal: first edge far longer than the radius"),
+ "C05-F": ("RRT-Connect extend() calls enforce_bounds on the steered state in the Advanced branch", "bounded SO2 interval wider than pi, path across the seam"),
+ "C06-E": ("RRT-Connect connect step loops extend() until reached or blocked, without a deadline check inside the loop", "max_distance tiny relative to the gap between the trees (1e-5 of the extent) or zero"),
+ "C06-F": ("SO2 distance simplified to |d| / 2pi-|d| (as C03-D): negative for raw values more than 2 pi apart", "un-normalised start: all planners walk straight through walls into a sealed goal"),
+ "C07-E": ("RRT* rewire loop breaks once start_time.elapsed() > timeout: the clock decides inside an iteration whether neighbours are re-parented", "a solve that times out inside an iteration followed by another solve on the same instance"),
+ "C07-F": ("Python PyRrtStar::new passes a default PlannerConfig in the SE3 arm: the seed is dropped", "Python RRTStar on a from_se3 problem"),
+ "C08-E": ("RRT::setup stores the problem definition with Option::get_or_insert", "setup(P1), setup(P2), solve: path for P1"),
+ "C08-F": ("PRM::solve: goal-milestone scan and its NoSolutionFound return hoisted above the start lookup / validation", "invalid or missing start with a roadmap that has no goal milestone: NoSolutionFound instead of InvalidStartState"),
+ "C09-E": ("SO3 distance small-angle branch (|dot| > 0.9999) measures the chord after flipping each quaternion to w >= 0", "nearly identical rotations by about pi (w ~ 0) of opposite sign: d = 2 pi"),
+ "C09-F": ("SE3StateSpace::new bounded arm passes weight 1.0 to the compound", "translation-bounded SE(3) with rotation weight != 1"),
+ "C10-E": ("SE2StateSpace::interpolate calls enforce_bounds on its result", "bounded SE2 whose yaw interval is crossed through the seam, or an end point outside the bounds"),
+ "C10-F": ("SO2 interpolate seam test `diff > PI` became `diff >= PI`", "exactly antipodal angles: both directions walk clockwise, interpolate(a,b,t) != interpolate(b,a,1-t)"),
+ "C11-E": ("RealVector enforce_bounds skips dimensions not bounded on both sides", "half-bounded box (0, inf) and a state beyond the finite bound"),
+ "C11-F": ("Compound enforce_bounds skips components that already pass their bounds check (as C13-C)", "accepted but non-canonical components (non-unit quaternion, raw angle)"),
+ "C12-E": ("SE3StateSpace::new tests bounds.len() < 3 instead of != 3", "four or more translation bounds: accepted, surplus (even NaN / inverted) entries dropped"),
+ "C12-F": ("SO2State::wrap removes whole turns by x - floor(x/2pi) 2pi instead of rem_euclid", "angles of about 1e14 and above: stored angle outside [-pi, pi]"),
+ "C13-E": ("Compound get_longest_valid_segment_length computes sqrt(sum w r^2) instead of sqrt(sum (w r)^2)", "a weight that is neither 0 nor 1"),
+ "C13-F": ("Compound interpolate skips components whose from/to distance is exactly 0 (as C10-C)", "shared component and an output state that is not a copy of `from`"),
+ "C14-E": ("Compound sample_uniform gives each component its own ChaCha stream positioned with set_word_pos(i) instead of set_stream(i)", "compound of three or more components: same-parity components read identical words (correlation 1, marginals uniform)"),
+ "C14-F": ("SO3 sample_uniform proposes only from the w >= 0 hemisphere and tests the cone with a signed dot", "cone containing half-turns (centre angle + max_angle >= pi)"),
+ "C15-E": ("SO2 interpolate uses to.value - from.value instead of the normalised difference", "tree root with a raw angle a full turn or more outside [-pi, pi)"),
+ "C15-F": ("RRT-Connect caches 'start root is valid' in a flag that setup() never resets", "setup + solve with a valid start, then setup with an invalid start and solve: tree grown from an invalid root"),
+ "C16-E": ("RRT* nearest-node scan breaks at the first node within max_distance", "two nodes within one step of the sample, the lower-indexed one farther away"),
+ "C16-F": ("RRT-Connect applies the goal bias only while the start tree is being grown", "goal_bias > 0 and the goal tree smaller (after a blocked connect)"),
+ "C17-E": ("RRT* choose-parent sorts candidates by the neighbour's own cost and stops at the first reachable improvement", "two neighbours on different branches both beating the nearest node"),
+ "C17-F": ("RRT* goal check moved before the rewire loop: the goal-reaching iteration skips rewiring", "tree kept after a successful solve (second solve or snapshot)"),
+ "C18-E": ("PRM construct_roadmap drops a valid sample at distance exactly 0 from an existing milestone", "repeated sample"),
+ "C18-F": ("PRM BFS marks milestones visited when expanded rather than when discovered: a queued milestone's parent is overwritten", "two mutually linked milestones at equal BFS depth: path no longer hop-minimal"),
+ "C19-E": ("PyRrt::new clips max_distance to space.get_maximum_extent() in the SO2 and SO3 arms (SO3 reports pi/2, distances reach pi)", "Python RRT on SO3 with max_distance > pi/2"),
+ "C19-F": ("Python PlannerConfig(seed=0) treated as unseeded", "seed exactly 0"),
+ "C20-E": ("validity-checker traceback limiter returns 'was the report suppressed' and is_valid uses it as the verdict: from the 17th failure on the state is accepted", "a fault region hit more than 16 times in one run"),
+ "C20-F": ("Python PRM.setup() calls the callback once on the start state and propagates its exception / TypeError", "PRM with a callback failing on the start state or at its first call"),
+}
+
+# strengthened from the change description before the first run (so the first log already shows it caught)
+PRE_EMPTED = {
+ "C10-F": "not run against the earlier check: reading the description showed that the reversal clause skipped exactly antipodal pairs, which the statement includes; the clause was extended first",
+}
+
 def parse_results(files):
     res = {}
     cur = None
@@ -140,7 +189,8 @@ def build(summary, base, vmap, res, rows, first):
             "caught_by_quick_checks": caught, "silent": silent, "inconclusive": other,
             "caught_by_own_property_check": pid in caught,
             "first_run_before_strengthening": first.get(f"{pid}-{sv}", {}),
-            "own_check_missed_it_at_first": first.get(f"{pid}-{sv}", {}).get(pid, {}).get("rc") != 1,
+            "own_check_missed_it_at_first": first.get(f"{pid}-{sv}", {}).get(pid, {}).get("rc") != 1 or mid in PRE_EMPTED,
+            "note": PRE_EMPTED.get(mid, ""),
             "how_run": "tools/run_mutant.sh <patch> <IDs>: git -C /repo apply; ./check <ID> quick; git -C /repo checkout -- .",
         }
         json.dump(meta, open(f"{dst}/meta.json", "w"), indent=1)
@@ -153,6 +203,11 @@ def main():
         res2 = parse_results(["/verif/seeded/logs/round2_quick_checks.txt", "/verif/seeded/logs/round2_after_strengthening.txt"])
         first2 = parse_results(["/verif/seeded/logs/round2_quick_checks.txt"])
         build(SUMMARY2, "/tmp/mut2", {"C": "A", "D": "B"}, res2, rows2, first2)
+    rows3 = []
+    if os.path.exists("/verif/seeded/logs/round3_quick_checks.txt"):
+        res3 = parse_results(["/verif/seeded/logs/round3_quick_checks.txt", "/verif/seeded/logs/round3_after_strengthening.txt"])
+        first3 = parse_results(["/verif/seeded/logs/round3_quick_checks.txt", "/verif/seeded/logs/round3_before_retune_widening.txt"])
+        build(SUMMARY3, "/tmp/mut3", {"E": "A", "F": "B"}, res3, rows3, first3)
     res = parse_results(["/verif/seeded/logs/quick_checks_final.txt", "/verif/seeded/logs/quick_checks_after_strengthening.txt"])
     rows = []
     for mid, (what, needs) in sorted(SUMMARY.items()):
@@ -188,7 +243,7 @@ def main():
         }
         json.dump(meta, open(f"{dst}/meta.json", "w"), indent=1)
         rows.append((mid, what, needs, caught, silent, other))
-    rows = rows + rows2
+    rows = sorted(rows + rows2 + rows3)
     with open("/verif/seeded/SUMMARY.md", "w") as f:
         f.write("# Seeded changes written by sub-agents and the outcome of the quick checks\n\n")
         f.write("| id | change | needs | caught by (quick tier) | silent (run, not expected to fire unless listed first) |\n|---|---|---|---|---|\n")
